@@ -104,6 +104,40 @@ def build_raid_harness(tag='raid', extra=()):
         raise BuildError('harness link failed:\n' + r.stdout[-3000:])
     return exe
 
+def build_leaf_harness(tag='leaf', extra=()):
+    """all objects of the snapraid binary (main renamed) + vendored fnmatch.c + harness/leaf_harness.c"""
+    out = os.path.join(scratch(), 'build-' + tag)
+    exe = os.path.join(out, 'leaf_harness')
+    if os.path.exists(exe):
+        return exe
+    srcs = repo_sources()
+    objs = build_objects([s for s in srcs if s != 'cmdline/snapraid.c'], out, extra, '-O1')
+    mobj = os.path.join(out, 'cmdline_snapraid_nomain.o')
+    r = run(['gcc'] + BASE_CFLAGS + ['-O1', '-g', '-Dmain=snapraid_main'] + list(extra) + ['-c', os.path.join(REPO, 'cmdline', 'snapraid.c'), '-o', mobj])
+    if r.returncode != 0:
+        raise BuildError('snapraid.c compile failed:\n' + r.stdout[-2000:])
+    fobj = os.path.join(out, 'vendored_fnmatch.o')
+    # the vendored glibc fnmatch of cmdline/fnmatch.c is only compiled on platforms without fnmatch();
+    # build it here under another name so that it can be compared too
+    r = run(['gcc', '-std=gnu89', '-I' + REPO, '-I' + os.path.join(REPO, 'cmdline'), '-O1', '-g', '-w',
+             '-DHAVE_FNMATCH=0', '-DHAVE_FNMATCH_H=1', '-DHAVE_STRING_H=1', '-DSTDC_HEADERS=1', '-Dfnmatch=vendored_fnmatch',
+             '-c', os.path.join(VERIF, 'harness', 'vendored_fnmatch_wrap.c'), '-o', fobj])
+    if r.returncode != 0:
+        raise BuildError('vendored fnmatch compile failed:\n' + r.stdout[-2000:])
+    hobj = os.path.join(out, 'leaf_harness.o')
+    r = run(['gcc'] + BASE_CFLAGS + ['-O1', '-g', '-I' + os.path.join(REPO, 'cmdline')] + list(extra) +
+            ['-c', os.path.join(VERIF, 'harness', 'leaf_harness.c'), '-o', hobj])
+    if r.returncode != 0:
+        raise BuildError('leaf harness compile failed:\n' + r.stdout[-3000:])
+    r = run(['gcc', '-pthread', '-rdynamic'] + list(extra) + ['-o', exe, hobj, mobj, fobj] + objs + ['-lblkid', '-lm'])
+    if r.returncode != 0:
+        raise BuildError('leaf harness link failed:\n' + r.stdout[-3000:])
+    return exe
+
+def leaf_query(exe, lines, timeout=600):
+    p = subprocess.run([exe], input='\n'.join(lines) + '\n', stdout=subprocess.PIPE, stderr=subprocess.PIPE, text=True, timeout=timeout)
+    return p.stdout.split('\n')[:-1], p.returncode, p.stderr
+
 def build_shim():
     out = os.path.join(scratch(), 'shim.so')
     if os.path.exists(out):
